@@ -171,13 +171,18 @@ def model_canon(kind, payload, out):
 def compare(kind, payload, real, model):
     if "error" in real or "error" in model:
         return None if real == model else f"real={str(real)[:200]} model={str(model)[:200]}"
-    r = {k: v for k, v in real["ok"] if abs(v) > 1e-12}
+    r = {k: v for k, v in real["ok"]}
     m = {k: float(v) for k, v in model["ok"] if v != 0}
-    if set(r) != set(m):
-        return f"outcomes {sorted(r)} vs model {sorted(m)}"
-    for k in r:
-        if abs(r[k] - m[k]) > 1e-9:
-            return f"outcome {k}: probability {r[k]} vs model {m[k]}"
+    for k in sorted(set(r) | set(m)):
+        a, b = r.get(k, 0.0), m.get(k, 0.0)
+        if abs(a - b) > 1e-9:
+            return f"outcome {k}: probability {a} vs model {b}"
+        # an outcome the model rules out must not be reported (beyond rounding noise); one the model gives a noticeable
+        # probability must be reported; outcomes of probability below 1e-12 may or may not be listed (pruning tolerance)
+        if k not in m and abs(a) > 1e-12:
+            return f"outcome {k} is impossible in the model but reported with probability {a}"
+        if k not in r and b > 1e-12:
+            return f"outcome {k} has probability {b} in the model but is not reported"
     return None
 
 
